@@ -103,6 +103,19 @@ def cases(shard, nshards, seed, tier):
                     for c in OPS:
                         if mine():
                             yield {"family": "hostile-3step", "n": n, "pairs": pairs, "history": [[0, a], [0, b], [0, c]]}
+    # long molecules: isolated pairs and proper stems far from the 5' end (indices beyond 256, 1000)
+    for t in range(3 if tier == "quick" else 20):
+        rng = random.Random(f"{seed}:C12:long:{t}")
+        pairs, pos = [], rng.randint(1, 30)
+        while pos < 1300:
+            L = rng.choice([1, 1, 2, 3])
+            for q in range(L):
+                pairs.append((pos + q, pos + 2 * L + 3 - q))
+            pos += 2 * L + 4 + rng.randint(0, 40)
+        n = pos + 5
+        for hist in ([[0, "without_isolated"], [0, "str"]], [[0, "without_pseudoknots"], [1, "without_isolated"], [0, "pairs"]]):
+            if mine():
+                yield {"family": "long-molecule", "n": n, "pairs": sorted(pairs), "history": hist}
     nmax = 6 if tier == "quick" else 7
     for n in range(2, nmax + 1):
         for pairs in gen2d.matchings(n):
